@@ -573,5 +573,4 @@ theorem primitive_ok (cv : Nat → Nat) (p terms : List (Nat × Nat)) (he : Eval
       refine ⟨cv (opAt p j).1, hmemP _ (by unfold opAt; omega) f1, cv (opAt p j).2, hmemP _ (by unfold opAt; omega) f2, ?_⟩
       exact hsum
 
-#print axioms primitive_ok
 end P.Prim
